@@ -104,11 +104,11 @@ class Scenario:
         return "limit"
 
 
-def app_request(k, size=None, local=("client.network", "network")):
+def app_request(k, size=None, local=("client.network", "network"), dest_realm="network"):
     from bromelia.base import DiameterRequest
     from bromelia.avps import SessionIdAVP, OriginHostAVP, OriginRealmAVP, DestinationRealmAVP, UserNameAVP, ClassAVP
     r = DiameterRequest(command_code=316, application_id=16777251)
-    r.extend([SessionIdAVP(b"app;1;%d" % k), OriginHostAVP(local[0]), OriginRealmAVP(local[1]), DestinationRealmAVP("network"), UserNameAVP("u%d" % k)])
+    r.extend([SessionIdAVP(b"app;1;%d" % k), OriginHostAVP(local[0]), OriginRealmAVP(local[1]), DestinationRealmAVP(dest_realm), UserNameAVP("u%d" % k)])
     if size:
         r.append(ClassAVP(bytes((k + i) % 251 for i in range(size))))
     return r
@@ -636,7 +636,7 @@ def run_life(seed, role, cause, point, blocked_consumer, restart=True, hook=None
 
 
 LIFE_PREEMPT = {"opcode": (), "line": ("recv_message_from_queue", "get_postprocess_recv_message", "get_message", "close", "set_closed_state",
-                                       "get_next_state", "_run")}
+                                       "get_next_state", "_run", "put_message_into_send_queue", "is_connected", "__is_connected")}
 
 
 def life_verdict(sc, cons, end):
@@ -691,6 +691,15 @@ def run_life_sweep(victim, k, cause="eof", seed=1):
         if victim == "worker":
             solo([tr], lambda: at_select() and a.transport._recv_data_available.flag)
             v = wk
+        elif victim == "sender":
+            # an application thread inside send_message() while the connection ends
+            def send():
+                try:
+                    n.d.send_message(app_request(5))
+                except BaseException as e:
+                    if type(e).__module__ != "bromelia.exceptions":
+                        raise
+            v = s.spawn("sender", send)
         else:
             solo([tr, wk, psm], lambda: len(a.postprocess_recv_messages.items) >= 1 and n.at_ticker(psm))
             v = cons[0]
@@ -720,7 +729,7 @@ def run_life_sweep(victim, k, cause="eof", seed=1):
             n.peer_close()
         else:
             n.feed(n.make("DPR", True, 2).dump())
-        others = [tr, psm] if victim == "worker" else [tr, wk, psm] if victim == "consumer" else [wk] + cons
+        others = [tr, psm] if victim == "worker" else [tr, wk, psm] if victim in ("consumer", "sender") else [wk] + cons
         fired = 0
         for _ in range(6000):
             if psm.done and victim != "psm":
@@ -781,6 +790,9 @@ def garbage_segments(n, rng):
         "u32-five-bytes": wrap(u32x5),
         "unknown-enumerator": wrap(bad_enum),
         "misaddressed": n.make("MIS", True, 1).dump(),
+        # a request for somebody else whose Destination-Host / Destination-Realm is not even text
+        "misaddressed-not-utf8-host": n.make("MIS", True, 1).dump().replace(b"other.host.example", b"\xfc" * 18),
+        "misaddressed-not-utf8-realm": n.make("MIS", True, 1).dump().replace(b"elsewhere.example", b"\xff\xfe" + b"x" * 15),
         "bad-utf8-uri": wrap((292).to_bytes(4, "big") + b"\x40" + (14).to_bytes(3, "big") + b"aaa:\xff\xfe\0\0"),
         "random": bytes(rng.getrandbits(8) for _ in range(rng.choice([1, 19, 20, 33, 64]))),
         "garbage-then-good": bytes([1, 0, 0, 24, 0x80, 0, 1, 60]) + bytes(12) + b"\xde\xad\xbe\xef" + good,
@@ -855,7 +867,7 @@ def run_garbage(seed, role, state, kind):
 def check_garbage(rep):
     rng = random.Random(rep.seed * 7919 + 33)
     kinds = ["length0", "length19", "short-header", "truncated", "avp-length-too-big", "avp-length-zero", "u32-five-bytes", "unknown-enumerator",
-             "misaddressed", "bad-utf8-uri", "random", "garbage-then-good"]
+             "misaddressed", "misaddressed-not-utf8-host", "misaddressed-not-utf8-realm", "bad-utf8-uri", "random", "garbage-then-good"]
     cases = [("client", "open"), ("server", "open"), ("client", "wait-cea"), ("server", "before-cer"), ("client", "closing")]
     reps = 1 if rep.tier == "quick" else 10
     n = 0
